@@ -14,6 +14,7 @@ def families(tier):
     yield "file-start variants (BOM, BOM+CRLF, shebang, inner attribute) x bodies x eol x style", spaces.file_start_variants()
     yield "statement-kind tuples: 2..%d statements of 7 kinds x directives in one file x style" % (3 if tier == "thorough" else 2), spaces.statement_kind_tuples(3 if tier == "thorough" else 2)
     yield "cross-feature product: directive x target x key-values x eol x layout x second statement on the line x position x style", spaces.cross_feature_product()
+    yield "gap sweep: 2-3 statements separated by 4 KiB / 8 KiB / 64 KiB / 128 KiB / 1 MiB (+-1 byte)", spaces.gap_sweep()
     yield "size-boundary sweep: file size and insertion offset within 3 of 2^9..2^17", spaces.size_boundary_sweep()
     yield "odd characters (NUL, lone CR, VT, FF, NEL, LS, PS, LRM, ZWSP, DEL, NBSP, combining) at 7 places", spaces.odd_characters()
     yield "C13 structured ref states (default layout)", spaces.c13_default_layout(tier)
